@@ -642,16 +642,28 @@ package shaping
 //@   modifies unspecified
 //
 // enforceLanguages ("the language tag is compatible with the script"): every run gets enforceLang(initial, script).
+//@ opaque langIDOf(l language.Language) language.LangID
+//@ opaque langKnown(l language.Language) bool
+//@ opaque langTagOf(id language.LangID) language.Language
 //@ trusted std:language.NewLangID
+//@   ensures [function-of-the-tag] result0 == langIDOf(l) && result1 == langKnown(l)
 //@   modifies nothing
 //@ trusted std:language.LangID.Language
+//@   ensures [function-of-the-id] result == langTagOf(lang)
 //@   modifies nothing
+//   initLang: the language of the first run, "en" when it is empty. Every run gets the tag of
+//   enforceLang(NewLangID(initLang), its script) - computed from THIS call's initial language; when the library does
+//   not know that language no run is touched.
 //@ func Segmenter.enforceLanguages C07
 //@   mode int
 //@   requires [non-empty] len(seg.output) > 0
 //@   ensures [runs-kept] len(seg.output) == old(len(seg.output)) && forall(k, 0, len(seg.output), seg.output[k].RunStart == old(seg.output[k].RunStart) && seg.output[k].RunEnd == old(seg.output[k].RunEnd) && seg.output[k].Script == old(seg.output[k].Script) && seg.output[k].Direction == old(seg.output[k].Direction) && seg.output[k].Face == old(seg.output[k].Face))
+//@   ensures [unknown-language-untouched] implies(!langKnown(ite(old(seg.output[0].Language) == "", "en", old(seg.output[0].Language))), forall(k, 0, len(seg.output), seg.output[k].Language == old(seg.output[k].Language)))
+//@   ensures [each-run-enforced] implies(langKnown(ite(old(seg.output[0].Language) == "", "en", old(seg.output[0].Language))), forall(k, 0, len(seg.output), seg.output[k].Language == langTagOf(enforceLang(langIDOf(ite(old(seg.output[0].Language) == "", "en", old(seg.output[0].Language))), seg.output[k].Script))))
 //@   modifies seg.output[:].Language
 //@   loop 1 invariant [header] sameslice(seg.output, old(seg.output))
+//@   loop 1 invariant [id-of-this-call] initialLangID == langIDOf(ite(old(seg.output[0].Language) == "", "en", old(seg.output[0].Language)))
+//@   loop 1 invariant [done] forall(k, 0, rangeindex+1, seg.output[k].Language == langTagOf(enforceLang(initialLangID, seg.output[k].Script)))
 //
 // splitByVertOrientation ("orientation is uniform"): orientOf is the orientation unicodedata assigns to a rune for
 // the run's script (ScriptVerticalOrientation.Orientation, trusted to be a function of its arguments). The runs
